@@ -216,7 +216,7 @@ func c33Case(rt *rapid.T, rec *vstat.Rec) {
 		fail("C33/live-differs-from-model", "live database differs from model before shutdown: %s", g8aFirstDiff(pre, want))
 	}
 	oldAddr := s.Addr()
-	if err := s.Close(true); err != nil {
+	if err := g8aClose(s); err != nil {
 		fail("C33/close-error", "clean close failed: %v", err)
 	}
 	s.ly.Close()
@@ -427,7 +427,7 @@ func c33Case(rt *rapid.T, rec *vstat.Rec) {
 	hist = append(hist, "W"+g8aShort(b), "RESTART")
 	want, _ = model.Dump()
 	addr2 := s2.Addr()
-	if err := s2.Close(true); err != nil {
+	if err := g8aClose(s2); err != nil {
 		fail("C33/close-error", "close of recovered node failed: %v", err)
 	}
 	s2.ly.Close()
